@@ -12,6 +12,8 @@ package props
 import (
 	"bytes"
 	"compress/gzip"
+	"crypto/aes"
+	"crypto/cipher"
 	"crypto/sha256"
 	"encoding/binary"
 	"encoding/hex"
@@ -71,6 +73,8 @@ type c07Opts struct {
 	SrcPageV int    `json:"src_data_page_version,omitempty"`
 	SrcBloom string `json:"src_bloom,omitempty"` // same | none | otherbits
 	SrcMax   int64  `json:"src_max_rows,omitempty"`
+	// encryption of the source file (same modes and keys as Encrypt)
+	SrcEncrypt string `json:"src_encryption,omitempty"`
 }
 
 type c07Case struct {
@@ -415,6 +419,9 @@ func c07GenCase(ctx *core.Ctx, index int) *c07Case {
 			o.MaxRows = 0 // the verbatim copy needs source row groups no larger than the destination limit
 		}
 	}
+	if (strings.HasPrefix(cs.Path, "file-") || cs.Path == "copyrows") && r3.Intn(4) == 0 {
+		o.SrcEncrypt = []string{"footer", "plain-footer", "column-keys"}[r3.Intn(3)]
+	}
 	// pre-sized filter + dictionary fallback needs WriteRowGroup and a small dictionary limit together
 	if (cs.Path == "buffer" || cs.Path == "file-reencode" || cs.Path == "file-merge") && o.DictMax == 0 && r3.Intn(3) == 0 {
 		o.DictMax = []int64{16, 64, 256}[r3.Intn(3)]
@@ -507,6 +514,8 @@ func (cs *c07Case) options(src bool) []parquet.WriterOption {
 		if ec := cs.encryption(); ec != nil {
 			opts = append(opts, parquet.WithEncryption(ec))
 		}
+	} else if ec := cs.encryptionMode(o.SrcEncrypt); ec != nil {
+		opts = append(opts, parquet.WithEncryption(ec))
 	}
 	return opts
 }
@@ -526,16 +535,40 @@ func (c07Keys) ColumnKey(path []string, _ []byte) ([]byte, error) {
 	return c07ColumnKey(strings.Join(path, ".")), nil
 }
 
-func (cs *c07Case) encryption() *parquet.EncryptionConfig {
-	if cs.Opts.Encrypt == "" {
+// openModule decrypts one module (nonce ‖ ciphertext ‖ tag) of column ci as the format prescribes;
+// independent of the library's decryption code.
+func (cs *c07Case) openModule(ci, rgi, leaf int, moduleType byte, body []byte) ([]byte, error) {
+	ec := cs.encryption()
+	key := ec.FooterKey
+	if k, ok := ec.ColumnKeys[cs.Cols[ci].Name]; ok {
+		key = k
+	}
+	block, err := aes.NewCipher(key)
+	if err != nil {
+		return nil, err
+	}
+	gcm, err := cipher.NewGCM(block)
+	if err != nil {
+		return nil, err
+	}
+	aad := append([]byte{}, ec.AadPrefix...)
+	aad = append(aad, ec.FileIdentifier...)
+	aad = append(aad, moduleType, byte(rgi), byte(rgi>>8), byte(leaf), byte(leaf>>8))
+	return gcm.Open(nil, body[:12], body[12:], aad)
+}
+
+func (cs *c07Case) encryption() *parquet.EncryptionConfig { return cs.encryptionMode(cs.Opts.Encrypt) }
+
+func (cs *c07Case) encryptionMode(mode string) *parquet.EncryptionConfig {
+	if mode == "" {
 		return nil
 	}
 	ec := &parquet.EncryptionConfig{
 		FooterKey:       c07FooterKey,
-		EncryptedFooter: cs.Opts.Encrypt != "plain-footer",
+		EncryptedFooter: mode != "plain-footer",
 		FileIdentifier:  []byte{1, 2, 3, 4, 5, 6, 7, 8},
 	}
-	if cs.Opts.Encrypt == "column-keys" {
+	if mode == "column-keys" {
 		ec.ColumnKeys = map[string][]byte{}
 		for i, c := range cs.Cols {
 			if i%2 == 0 { // the others fall back to the footer key
@@ -712,7 +745,11 @@ func (cs *c07Case) write() (data []byte, err error) {
 		if err := sw.Close(); err != nil {
 			return nil, fmt.Errorf("source: %w", err)
 		}
-		sf, err := parquet.OpenFile(bytes.NewReader(src.Bytes()), int64(src.Len()))
+		var sopts []parquet.FileOption
+		if o.SrcEncrypt != "" {
+			sopts = append(sopts, parquet.WithDecryption(c07Keys{}))
+		}
+		sf, err := parquet.OpenFile(bytes.NewReader(src.Bytes()), int64(src.Len()), sopts...)
 		if err != nil {
 			return nil, fmt.Errorf("source: %w", err)
 		}
@@ -853,6 +890,9 @@ func c07RunCase(ctx *core.Ctx, b *c07Batch, cs *c07Case) {
 		fopts = append(fopts, parquet.WithDecryption(c07Keys{}))
 		ctx.Hist("files.encryption", cs.Opts.Encrypt)
 	}
+	if cs.Opts.SrcEncrypt != "" {
+		ctx.Hist("files.source-encryption", cs.Opts.SrcEncrypt+" -> "+cs.Opts.Encrypt)
+	}
 	f, err := parquet.OpenFile(bytes.NewReader(data), int64(len(data)), fopts...)
 	if err != nil {
 		ctx.Fail("L1", "written-file-does-not-open", "OpenFile fails on a file the writer produced: "+err.Error(), cs.describe(ctx.Seed))
@@ -962,7 +1002,7 @@ func c07CheckChunk(ctx *core.Ctx, b *c07Batch, cs *c07Case, f *parquet.File, rgi
 		}
 		break
 	}
-	c07SectionL2(ctx, b, cs, f, rgi, leaf, where)
+	c07SectionL2(ctx, b, cs, f, rgi, ci, leaf, where)
 	// ---- L2: stored filter bytes vs the model filter of the same values and size
 	if len(vals) == 0 || size == 0 {
 		return
@@ -1146,7 +1186,7 @@ func c07PlacementL2(ctx *core.Ctx, b *c07Batch, cs *c07Case, f *parquet.File) {
 // `header_roundtrip`) for the NumBytes found and the configured compression, and header + NumBytes =
 // BloomFilterLength. Encrypted: two module envelopes whose lengths add up to BloomFilterLength
 // (`encSectionLength`).
-func c07SectionL2(ctx *core.Ctx, b *c07Batch, cs *c07Case, f *parquet.File, rgi, leaf int, where func() map[string]any) {
+func c07SectionL2(ctx *core.Ctx, b *c07Batch, cs *c07Case, f *parquet.File, rgi, ci, leaf int, where func() map[string]any) {
 	md := f.Metadata()
 	if rgi >= len(md.RowGroups) || leaf >= len(md.RowGroups[rgi].Columns) {
 		return
@@ -1182,14 +1222,41 @@ func c07SectionL2(ctx *core.Ctx, b *c07Batch, cs *c07Case, f *parquet.File, rgi,
 		n2 := int64(binary.LittleEndian.Uint32(sect[4+n1:]))
 		nb := n2 - 28
 		ctx.Hist("files.section", "encrypted")
+		// the harness opens both modules itself (AES-GCM, AAD = prefix ‖ file id ‖ module type ‖ row group ‖ column)
+		var hdrPlain []byte
+		if 4+n1+4+n2 <= length && n1 >= 28 && n2 >= 28 {
+			var err error
+			if hdrPlain, err = cs.openModule(ci, rgi, leaf, 6, sect[4:4+n1]); err != nil {
+				fail("encrypted-filter-module-does-not-open", "header module: "+err.Error(), nil)
+				return
+			}
+			bits, err := cs.openModule(ci, rgi, leaf, 7, sect[4+n1+4:4+n1+4+n2])
+			if err != nil {
+				fail("encrypted-filter-module-does-not-open", "bitset module: "+err.Error(), nil)
+				return
+			}
+			if gz == 1 {
+				if bits, err = c07Gunzip(bits); err != nil {
+					fail("encrypted-filter-bitset-vs-reader", "bitset module is not a gzip stream: "+err.Error(), nil)
+					return
+				}
+			}
+			// what the library's reader hands out (Size/ReadAt) must be the (decompressed) bitset
+			if bf := f.RowGroups()[rgi].ColumnChunks()[leaf].BloomFilter(); bf != nil {
+				got := make([]byte, bf.Size())
+				if _, err := bf.ReadAt(got, 0); (err != nil && err != io.EOF) || !bytes.Equal(got, bits) {
+					fail("encrypted-filter-bitset-vs-reader", fmt.Sprintf("the reader's filter (%d bytes) is not the decrypted, decompressed bitset (%d bytes)", len(got), len(bits)), nil)
+				}
+			}
+		}
 		req := fmt.Sprintf("bloom.header %d %d", nb, gz)
 		b.add(req, func(resp string) {
 			fs := strings.Fields(resp)
-			if len(fs) == 3 && fs[0] == "ok" && fs[2] == fmt.Sprint(length) && int64(len(fs[1])/2)+28 == n1 {
+			if len(fs) == 3 && fs[0] == "ok" && fs[2] == fmt.Sprint(length) && int64(len(fs[1])/2)+28 == n1 && core.Hex(hdrPlain) == fs[1] {
 				return
 			}
-			fail("encrypted-filter-section-framing", "header module + bitset module do not add up to BloomFilterLength as in the mirror of writeBloomFilter",
-				map[string]any{"request": req, "lean": resp, "module1": n1, "module2": n2})
+			fail("encrypted-filter-section-framing", "header module (decrypted) + bitset module are not those of the mirror of writeBloomFilter (encSection)",
+				map[string]any{"request": req, "lean": resp, "module1": n1, "module2": n2, "header_plain": core.Hex(hdrPlain)})
 		})
 		return
 	}
